@@ -136,6 +136,7 @@ type world struct {
 	violation    string
 	badRequests  []string
 	non200Rep    int
+	present      func(i int) bool // if set: ground truth for "dependency i is in the remote origin cluster"
 }
 
 func (w *world) logf(what string, dep int, out string) {
@@ -221,6 +222,9 @@ func (b buildIndex) ServeHTTP(rw http.ResponseWriter, r *http.Request) {
 		// The remote build-index is being asked to store the tag: the property's moment.
 		var missing []string
 		for i, ok := range w.confirmed {
+			if w.present != nil {
+				ok = w.present(i) // chain part: look into the remote origin's store
+			}
 			if !ok {
 				missing = append(missing, fmt.Sprintf("dep%d", i))
 			}
@@ -646,6 +650,7 @@ func TestProp(t *testing.T) {
 		Parts: []pbt.Part{
 			pbt.NewPart("exec", 14, genCase, runExec),
 			pbt.NewPart("manager", 1, genCase, runManager),
+			pbt.NewPart("chain", 3, genChain, runChain),
 		},
 	})
 }
